@@ -22,6 +22,7 @@ pub fn run(cfg: &Cfg, rep: &mut Report) {
             .collect();
         let forms: Vec<(bool, bool)> = handlers.iter().map(|h| (h.no_event, h.no_query)).collect();
         let built: Built<Dev, Script> = Built::new(&specs, handlers);
+        let root = built.root();
         let rt = RTree::from_specs(&specs);
         let mut tree_desc = String::new();
         for s in &specs {
@@ -29,6 +30,87 @@ pub fn run(cfg: &Cfg, rep: &mut Report) {
         }
         let shape = hash_str(&tree_desc);
         ctx.count(&format!("trees.leaves.{}", if rt.leaves.len() > 20 { ">20".to_string() } else { format!("{:02}", rt.leaves.len()) }));
+        drive(rng, ctx, root, &rt, &forms, &tree_desc, shape, nhist);
+    });
+    // The same oracle on a tree written with the library's own `Root!` / `Branch!` / `Leaf!` macros (every macro arm),
+    // the way the documentation tells users to build trees; the equivalent specification is written out by hand.
+    let nmacro = cfg.n(4, 4_000, 80_000);
+    run_cases(cfg, "macro-tree", nmacro, rep, |rng, ctx| {
+        let specs = macro_tree_specs();
+        let rt = RTree::from_specs(&specs);
+        let forms: Vec<(bool, bool)> = (0..MACRO_HANDLERS).map(|_| (false, false)).collect();
+        let mut tree_desc = String::from("macro-built: ");
+        for s in &specs {
+            s.describe(&mut tree_desc, 0);
+        }
+        let shape = hash_str(&tree_desc);
+        drive(rng, ctx, &MACRO_TREE, &rt, &forms, &tree_desc, shape, nhist);
+    });
+}
+
+/// handler of the macro-built tree: records its invocation, reads whatever data there is, answers its number
+pub struct MH<const ID: u32>;
+impl<const ID: u32> scpi::tree::prelude::Command<Dev> for MH<ID> {
+    fn event(&self, dev: &mut Dev, _c: &mut Context, mut params: scpi::tree::prelude::Parameters) -> scpi::error::Result<()> {
+        dev.log.push(Ev::Invoke { h: ID, query: false });
+        while params.next_optional_token()?.is_some() {}
+        Ok(())
+    }
+    fn query(&self, dev: &mut Dev, _c: &mut Context, mut params: scpi::tree::prelude::Parameters, mut resp: scpi::tree::prelude::ResponseUnit) -> scpi::error::Result<()> {
+        dev.log.push(Ev::Invoke { h: ID, query: true });
+        while params.next_optional_token()?.is_some() {}
+        resp.data(ID).finish()
+    }
+}
+
+use scpi::{Branch, Leaf, Root};
+const MACRO_HANDLERS: usize = 17;
+const MACRO_TREE: scpi::tree::Node<'static, Dev> = Root![
+    Leaf!(b"*IDN" => &MH::<0>),
+    Branch!(b"SYSTem";
+        Branch!(b"ERRor";
+            Leaf!(default b"NEXT" => &MH::<1>),
+            Leaf!(b"ALL" => &MH::<2>),
+            Leaf!(b"COUNt" => &MH::<3>)),
+        Leaf!(b"VERSion" => &MH::<4>)),
+    Branch!(b"CONFigure" => &MH::<5>;
+        Branch!(default b"SCALar";
+            Branch!(b"VOLTage" => &MH::<6>;
+                Leaf!(b"DC" => &MH::<7>),
+                Leaf!(b"AC" => &MH::<8>)),
+            Leaf!(b"CURRent2" => &MH::<9>))),
+    Branch!(default b"SENSe";
+        Branch!(b"FREQuency";
+            Leaf!(default b"CW" => &MH::<10>),
+            Leaf!(b"STARt" => &MH::<11>)),
+        Leaf!(b"RANGe" => &MH::<12>)),
+    Leaf!(b"OUTPut1" => &MH::<13>),
+    Leaf!(b"OUTPut2" => &MH::<14>),
+    Branch!(b"TRIGger3" => &MH::<15>;
+        Leaf!(b"SOURce" => &MH::<16>)),
+    Leaf!(b"*RST" => &MH::<0>)
+];
+
+fn macro_tree_specs() -> Vec<Spec> {
+    let l = |n: &[u8], h: usize| Spec::leaf(n, false, h);
+    let dl = |n: &[u8], h: usize| Spec::leaf(n, true, h);
+    let b = |n: &[u8], sub: Vec<Spec>| Spec::branch(n, false, sub);
+    let db = |n: &[u8], sub: Vec<Spec>| Spec::branch(n, true, sub);
+    vec![
+        l(b"*IDN", 0),
+        b(b"SYSTem", vec![b(b"ERRor", vec![dl(b"NEXT", 1), l(b"ALL", 2), l(b"COUNt", 3)]), l(b"VERSion", 4)]),
+        b(b"CONFigure", vec![dl(b"", 5), db(b"SCALar", vec![b(b"VOLTage", vec![dl(b"", 6), l(b"DC", 7), l(b"AC", 8)]), l(b"CURRent2", 9)])]),
+        db(b"SENSe", vec![b(b"FREQuency", vec![dl(b"CW", 10), l(b"STARt", 11)]), l(b"RANGe", 12)]),
+        l(b"OUTPut1", 13),
+        l(b"OUTPut2", 14),
+        b(b"TRIGger3", vec![dl(b"", 15), l(b"SOURce", 16)]),
+        l(b"*RST", 0),
+    ]
+}
+
+#[allow(clippy::too_many_arguments)]
+fn drive(rng: &mut Rng, ctx: &mut Ctx, root: &scpi::tree::Node<Dev>, rt: &RTree, forms: &[(bool, bool)], tree_desc: &str, shape: u64, nhist: usize) {
+    {
         let mut dev = Dev::new();
         let mut c = Context::default();
         for _ in 0..nhist {
@@ -46,7 +128,7 @@ pub fn run(cfg: &Cfg, rep: &mut Report) {
                 let mut h = shape;
                 let mut kinds: Vec<&'static str> = vec![];
                 for u in 0..nunits {
-                    let g = gen_unit(rng, &rt, level, u == 0, true);
+                    let g = gen_unit(rng, rt, level, u == 0, true);
                     if u > 0 {
                         ws0(rng, &mut msg);
                         msg.push(b';');
@@ -115,12 +197,12 @@ pub fn run(cfg: &Cfg, rep: &mut Report) {
                 let mut resp: Vec<u8> = Vec::new();
                 // message-available as the interface would report it: must not influence dispatch
                 c.mav = rng.chance(1, 3);
-                let r = built.root().run(&msg, &mut dev, &mut c, &mut resp);
+                let r = root.run(&msg, &mut dev, &mut c, &mut resp);
                 let got = dev.invocations();
                 ctx.add("invocations.observed", got.len() as u64);
                 ctx.nontrivial(h);
                 let detail = |got: &Vec<(u32, bool)>| {
-                    jobj(&[("tree", jstr(&tree_desc)), ("message", jbytes(&msg)), ("expected_invocations", jstr(&format!("{:?}", expect))), ("observed_invocations", jstr(&format!("{:?}", got))), ("expected_error", expect_err.to_string()), ("result", jstr(&format!("{:?}", r.as_ref().err().map(|e| e.get_code())))), ("unit_kinds", jstr(&kinds.join(",")))])
+                    jobj(&[("tree", jstr(tree_desc)), ("message", jbytes(&msg)), ("expected_invocations", jstr(&format!("{:?}", expect))), ("observed_invocations", jstr(&format!("{:?}", got))), ("expected_error", expect_err.to_string()), ("result", jstr(&format!("{:?}", r.as_ref().err().map(|e| e.get_code())))), ("unit_kinds", jstr(&kinds.join(",")))])
                 };
                 if got != expect {
                     // classify
@@ -148,9 +230,9 @@ pub fn run(cfg: &Cfg, rep: &mut Report) {
                     (Err(e), false) => ctx.violation(&format!("C02:resolvable-message-failed:{}", e.get_code()), detail(&got)),
                 }
                 if ctx.index % 97 == 0 {
-                    ctx.sample(|| jobj(&[("tree", jstr(&tree_desc)), ("message", jbytes(&msg)), ("invocations(handler,query)", jstr(&format!("{:?}", expect))), ("undefined_header_expected", expect_err.to_string())]));
+                    ctx.sample(|| jobj(&[("tree", jstr(tree_desc)), ("message", jbytes(&msg)), ("invocations(handler,query)", jstr(&format!("{:?}", expect))), ("undefined_header_expected", expect_err.to_string())]));
                 }
             }
         }
-    });
+    }
 }
